@@ -23,6 +23,19 @@ pub fn os_encode(o: &Os, tag: u8, out: &mut Vec<u8>) {
         }
     }
 }
+/// as os_encode, with randomly chosen (possibly non-minimal) BER length forms on every header
+pub fn os_encode_forms(o: &Os, tag: u8, out: &mut Vec<u8>, rng: &mut Rng) {
+    let lenf = |n: usize, rng: &mut Rng| if rng.chance(1, 2) { ref_len_octets(n) } else { ber_len_octets(n, rng.below(3) as usize) };
+    match o {
+        Os::Prim(b) => { out.push(tag); out.extend(lenf(b.len(), rng)); out.extend(b); }
+        Os::Cons(indef, kids) => {
+            out.push(tag | 0x20);
+            let mut body = Vec::new(); for k in kids { os_encode_forms(k, 0x04, &mut body, rng); }
+            if *indef { out.push(0x80); out.extend(body); out.extend_from_slice(&[0, 0]); }
+            else { out.extend(lenf(body.len(), rng)); out.extend(body); }
+        }
+    }
+}
 pub fn os_content(o: &Os) -> Vec<u8> { match o { Os::Prim(b) => b.clone(), Os::Cons(_, k) => k.iter().flat_map(os_content).collect() } }
 fn os_prims(o: &Os, out: &mut Vec<Vec<u8>>) { match o { Os::Prim(b) => out.push(b.clone()), Os::Cons(_, k) => for x in k { os_prims(x, out) } } }
 
@@ -71,14 +84,19 @@ fn decode_case(em: &mut Emitter, mode: u8, data: &[u8], exp: Option<(bool, Vec<u
             let octs: Vec<u8> = os.octets().collect();
             let segs: Vec<Vec<u8>> = os.iter().map(|s| s.to_vec()).collect();
             let ib = os.clone().into_bytes().to_vec();
-            (v, octs, segs, os.to_bytes().to_vec(), ib, os.len(), os.is_empty())
+            // the value as a decoding source: everything it hands out, in order
+            let mut src = { use bcder::decode::IntoSource; os.clone().into_source() };
+            let mut sv = Vec::new();
+            loop { use bcder::decode::Source; let g = src.request(3).unwrap(); if g == 0 { break } let k = g.min(3); sv.extend_from_slice(&src.slice()[..k]); src.advance(k); }
+            (v, octs, segs, os.to_bytes().to_vec(), ib, os.len(), os.is_empty(), sv)
         }));
         match r {
-            Some(Some((v, octs, segs, tb, ib, l, e))) => {
+            Some(Some((v, octs, segs, tb, ib, l, e, sv))) => {
                 let orc = match &exp {
                     Some((true, content, prims)) => {
                         let nonempty: Vec<Vec<u8>> = prims.clone();
                         if octs != *content || tb != *content || ib != *content || l != content.len() || e != content.is_empty() { Oracle::Fail("views-differ-from-concatenation".into()) }
+                        else if sv != *content { Oracle::Fail("source-view-differs-from-concatenation".into()) }
                         else if segs.concat() != *content { Oracle::Fail("segments".into()) }
                         else if segs.len() > nonempty.len() { Oracle::Fail("segment-count".into()) }
                         else { Oracle::Pass }
@@ -168,6 +186,10 @@ pub fn run16(em: &mut Emitter, rng: &mut Rng, thorough: bool) {
         for mode in 0..3u8 {
             decode_case(em, mode, &data, Some((ref_accept(&o, mode), content.clone(), prims.clone())));
         }
+        // the same tree under random (non-minimal) BER length forms on every header
+        { let mut df = Vec::new(); os_encode_forms(&o, 0x04, &mut df, rng);
+          decode_case(em, 0, &df, Some((true, content.clone(), prims.clone())));
+          if df != data { for mode in [1u8, 2] { decode_case(em, mode, &df, None); } } }
         let outer_indef = matches!(o, Os::Cons(true, _));
         for m2 in 0..3u8 { encode_case(em, 0, &data, m2, outer_indef, &content); }
         if matches!(o, Os::Prim(_)) { encode_case(em, 2, &data, 2, false, &content); }
